@@ -390,9 +390,9 @@ def _ret_kinds(f):
     return kinds
 
 
-def r_tuplerole(idx, rep, rule="R-TUPLEROLE"):
+def r_tuplerole(idx, rep, rule="R-TUPLEROLE", floor=8):
     rep.rule(rule, "result-tuple wrappers index the element that holds the quantity they are named after; the iteration-count "
-                   "helpers drive the same loop with the same arguments as the distance function", floor=8)
+                   "helpers drive the same loop with the same arguments as the distance function", floor=floor)
     table = [
         (N1 + "::gjk_nesterov_accelerated_intersection", N1 + "::gjk_nesterov_accelerated", ("inside", "contact", "intersection")),
         (N1 + "::gjk_nesterov_accelerated_distance", N1 + "::gjk_nesterov_accelerated", ("distance",)),
